@@ -35,6 +35,9 @@ It must hold for: {p['quantifier']}
 3. Confirm yourself: (a) `python demo_{pid}.py /repo` → PASS; (b) `python demo_{pid}.py {wt}` → FAIL; (c) the pinned test suite (command in the README) still reports 131 passed in your worktree.
 4. Save the change as `{wt}/patch.diff` (`git -C {wt} diff > patch.diff`, source files only — not the demo).
 
+## Side findings
+If, while exploring, you notice that the UNMODIFIED /repo already violates the property on some input, operation sequence or schedule, say so at the end of your report under the heading 'Side finding', with a minimal reproduction you actually ran against /repo and its output. Do not go looking for these at the expense of the main task.
+
 ## Final answer
 Report: the diff, what the change does and why it breaks the property, what exactly is needed for it to manifest, and the outputs of the three confirmation runs. Leave the worktree in place (do not remove it). Do not ask questions; work autonomously.'''
 open('/verif/tools/seed_prompts/%s_%s.txt' % (pid, tag), 'w').write(txt)
